@@ -125,8 +125,8 @@ def run_shard(desc) -> Acc:
         return X.response_header(V, seq, cid, callback=cb) + body
 
     async def main(loop):
-        st = ncpsim.Stack(loop, V)
-        ez = await st.start()
+        st = await ncpsim.started(loop, V, acc, "C08")
+        ez = st.ezsp
 
         class Hold:
             """NCP that never answers: keeps a command pending."""
@@ -308,7 +308,10 @@ def run_shard(desc) -> Acc:
         await drop_pending()
         acc.sample({"version": V, "derived_from": mine[:4], "ops": ["valid", "truncate", "flip", "idsub", "seqsub", "random"]})
 
-    vloop.run(main)
+    try:
+        vloop.run(main)
+    except ncpsim.BringUpFailed:
+        pass
     return acc
 
 
